@@ -15,6 +15,17 @@ in rationals (float filter taps are dyadic rationals and are passed exactly; inp
 result is compared with the float implementation at 1e-10.
 Search side (`search`): the property's three identities and the advertised shape on the real
 `sp.fwt/sp.iwt/linop.Wavelet(.H/.H.H)`, written from the statement, independent of the model.
+
+Representation of the inputs (round 3 hardening).  "Real and complex inputs" are numpy arrays holding real or complex
+numbers; the statement does not restrict how they are stored.  The integer test data of the exact model is therefore
+handed to the implementation in varying storage (`draw_feed`: float64, (u)int8..64, byte-swapped, long double, complex128 =
+two model requests; C / Fortran / strided / reversed / transposed / window / read-only / unaligned / .real-part views) -
+the exact model value is the expected result for every one of them - and the search oracle draws storage dtype (also
+float16/32, complex64 at a single-precision tolerance), memory layout, magnitude, an independently stored coefficient
+array for the adjoint identity, numpy-integer spelling of the arguments, and call histories over several live operators.
+All identities are judged on the exact values the arrays hold (float64 / complex128 copies), never in the input's dtype.
+Known finding explored by this widening: complex arrays in NON-NATIVE byte order lose their imaginary part inside
+PyWavelets (key C10:byteswapped-complex-input).
 """
 import itertools
 import json
@@ -196,8 +207,41 @@ def stream_filters(ctx):
 
 
 def _cmp(a, b, tol=ATOL_MODEL):
-    a, b = np.asarray(a, dtype=float).ravel(), np.asarray(b, dtype=float).ravel()
+    # by value, whatever the dtype of the implementation's result (an integer-typed result is compared like any other)
+    a, b = np.asarray(a).astype(complex).ravel(), np.asarray(b).astype(complex).ravel()
     return a.shape == b.shape and (a.size == 0 or float(np.abs(a - b).max()) <= tol)
+
+
+# ---- how the integer test data of the exact model is handed to the implementation -------------------------------
+# The model computes with the integers themselves; the implementation receives them in an array of some storage dtype
+# and memory layout (every one of them holds exactly these integers, so the exact model value is the expected result
+# for all of them; single-precision storage is left to the search oracle, whose tolerance is relative).
+FEED_DTYPES = ["float64"] * 4 + ["int8", "int16", "int32", "int64", "uint8", "uint16", "uint32", "uint64", ">f8", ">i4", "longdouble"]
+FEED_LAYOUTS = ["C"] * 4 + ["F", "strided", "neg", "T", "window", "ro", "unaligned", "part"]
+
+
+def draw_feed(rng, allow_complex=False):
+    dts = FEED_DTYPES + (["complex128"] * 3 + ["clongdouble"] if allow_complex else [])
+    return dict(dtype=rng.choice(dts), layout=rng.choice(FEED_LAYOUTS), seed=rng.randint(0, 10 ** 6))
+
+
+def feed_ints(vals, feed):
+    """the integer data a feed can hold: absolute values for unsigned storage"""
+    if feed is not None and np.dtype(feed["dtype"]).kind == "u":
+        return [abs(int(v)) for v in vals]
+    return [int(v) for v in vals]
+
+
+def feed_array(ints, feed, shape=None, imag=None):
+    a = np.asarray(ints, dtype=np.int64)
+    if shape is not None:
+        a = a.reshape(shape)
+    if feed is None:
+        return a.astype(float)
+    dt = np.dtype(feed["dtype"])
+    if dt.kind == "c" and imag is not None:
+        a = a + 1j * np.asarray(imag, dtype=np.int64).reshape(a.shape)
+    return lay(a.astype(dt), feed["layout"], feed["seed"])
 
 
 def gen_1d_cases(ctx, rng, names):
@@ -215,8 +259,9 @@ def gen_1d_cases(ctx, rng, names):
             cases.append(("idwt", name, dict(a=[rng.randint(-9, 9) for _ in range(m)], d=[rng.randint(-9, 9) for _ in range(m)])))
             for level in (LEVELS if n <= 2 * L + 1 else [rng.choice(LEVELS)]):
                 ax = rng.choice([None, (0,), (-1,)])
-                cases.append(("fwt1", name, dict(x=x, level=level, axes=ax)))
-                cases.append(("iwt1", name, dict(n=n, level=level, axes=ax, seed=rng.randint(0, 10 ** 6))))
+                fx, fc = draw_feed(rng), draw_feed(rng)
+                cases.append(("fwt1", name, dict(x=feed_ints(x, fx), level=level, axes=ax, feed=fx)))
+                cases.append(("iwt1", name, dict(n=n, level=level, axes=ax, seed=rng.randint(0, 10 ** 6), feed=fc)))
     return cases
 
 
@@ -238,7 +283,8 @@ def iwt1_input(name, p):
     import sigpy as sp
     osh, sl = sp.wavelet.get_wavelet_shape([p["n"]], name, p["axes"], p["level"])
     r = np.random.RandomState(p["seed"])
-    return r.randint(-9, 10, size=osh), sl
+    c = r.randint(-9, 10, size=osh)
+    return np.array(feed_ints(c.ravel(), p.get("feed"))).reshape(c.shape), sl
 
 
 def impl_1d(kind, name, p, via):
@@ -251,13 +297,13 @@ def impl_1d(kind, name, p, via):
     if kind == "idwt":
         return ("ok", [pywt.idwt(np.array(p["a"], dtype=float), np.array(p["d"], dtype=float), name, "zero")])
     if kind == "fwt1":
-        x = np.array(p["x"], dtype=float)
+        x = feed_array(p["x"], p.get("feed"))
         if via == "linop":
             return ("ok", [linop.Wavelet(x.shape, axes=p["axes"], wave_name=name, level=p["level"])(x)])
         return ("ok", [sp.fwt(x, wave_name=name, axes=p["axes"], level=p["level"])])
     if kind == "iwt1":
         c, sl = iwt1_input(name, p)
-        c = c.astype(float)
+        c = feed_array(c, p.get("feed"))
         if via == "linop":
             return ("ok", [linop.Wavelet([p["n"]], axes=p["axes"], wave_name=name, level=p["level"]).H(c)])
         return ("ok", [sp.iwt(c, [p["n"]], sl, wave_name=name, axes=p["axes"], level=p["level"])])
@@ -288,6 +334,9 @@ def stream_1d(ctx, rng, names):
             ctx.case((kind, name, json.dumps(p, sort_keys=True), via),
                      sample=dict(op=kind, wavelet=name, args=p, reply=r[:100]) if ctx.evaluations % 211 == 0 else None)
             ctx.count("1d:%s" % kind)
+            if "feed" in p:
+                ctx.count("feed:dtype:%s" % p["feed"]["dtype"])
+                ctx.count("feed:layout:%s" % p["feed"]["layout"])
             ok = isinstance(model, list) and isinstance(impl, list) and len(model) == len(impl) and \
                 all(_cmp(a, b) for a, b in zip(model, impl))
             if not ok:
@@ -362,7 +411,8 @@ def gen_shape_cases(ctx, rng, names):
         for shape in rng.sample(shapes, 14 if ctx.tier == "thorough" else 9):
             for axes in subsets(len(shape), rng, limit=7 if ctx.tier == "thorough" else 5):
                 for level in LEVELS:
-                    cases.append(dict(wavelet=name, shape=list(shape), axes=None if axes is None else list(axes), level=level))
+                    cases.append(dict(wavelet=name, shape=list(shape), axes=None if axes is None else list(axes), level=level,
+                                      dtype=rng.choice(["float64", "float64", "complex128", "float32", "complex64", "int16", "uint8", "int64"])))
     return cases
 
 
@@ -384,7 +434,7 @@ def stream_shapes(ctx, rng, names):
         try:
             W = linop.Wavelet(c["shape"], axes=ax, wave_name=c["wavelet"], level=c["level"])
             Wi = linop.InverseWavelet(c["shape"], axes=ax, wave_name=c["wavelet"], level=c["level"])
-            y = sp.fwt(np.ones(c["shape"]), wave_name=c["wavelet"], axes=ax, level=c["level"])
+            y = sp.fwt(np.ones(c["shape"], dtype=c["dtype"]), wave_name=c["wavelet"], axes=ax, level=c["level"])
             impl = [list(W.oshape), list(Wi.ishape), list(y.shape), list(W.ishape), list(Wi.oshape)]
         except Exception as e:  # noqa
             impl = "err %s" % type(e).__name__
@@ -438,7 +488,8 @@ def stream_separable(ctx, rng, names):
         nd = rng.choice([2, 2, 3])
         shape = tuple(rng.randint(1, 6 if nd == 2 else 4) for _ in range(nd))
         axes = rng.choice(subsets(nd))
-        x = np.array([rng.randint(-9, 9) for _ in range(int(np.prod(shape)))], dtype=object).reshape(shape)
+        feed = draw_feed(rng)
+        x = np.array(feed_ints([rng.randint(-9, 9) for _ in range(int(np.prod(shape)))], feed), dtype=object).reshape(shape)
         tr = norm_axes(axes, nd)
 
         def cost(nm):  # exact rational work of the model: output size x filter length (long filters in 3-D are ~1e6)
@@ -476,13 +527,13 @@ def stream_separable(ctx, rng, names):
         ctx.case(("separable", name, shape, axes, x.ravel().tolist()))
         ctx.count("separable:%dd" % nd)
         try:
-            impl = sp.fwt(x.astype(float), wave_name=name, axes=axes, level=1)
+            impl = sp.fwt(feed_array([int(v) for v in x.ravel()], feed, shape), wave_name=name, axes=axes, level=1)
         except Exception as e:  # noqa
             impl = None
         model = cur.astype(float) if ok else None
         if impl is None or model is None or impl.shape != model.shape or not _cmp(impl, model):
             bad += 1
-            ctx.disagree("separable", dict(kind="separable", wavelet=name, shape=list(shape),
+            ctx.disagree("separable", dict(kind="separable", wavelet=name, shape=list(shape), feed=feed,
                                            axes=None if axes is None else list(axes), x=[int(v) for v in x.ravel()]),
                          None if impl is None else impl.tolist(), None if model is None else model.tolist())
     ctx.oblige("correspondence:C10.separable", "correspondence", bad == 0,
@@ -532,59 +583,86 @@ def stream_nd_levels(ctx, rng, names):
         if _nd_cost(shape, norm_axes(axes, nd), L, level) <= budget:
             cases.append((name, shape, axes, level))
     lines, meta = [], []
+
+    def ints(n, feed):
+        return np.array(feed_ints([rng.randint(-9, 9) for _ in range(n)], feed), dtype=np.int64)
+
     for name, shape, axes, level in cases:
         _, f = filt(name)
         nd = len(shape)
         ax = norm_axes(axes, nd)
-        x = np.array([rng.randint(-9, 9) for _ in range(int(np.prod(shape)))]).reshape(shape)
+        fx, fc = draw_feed(rng, allow_complex=True), draw_feed(rng, allow_complex=True)
+        n = int(np.prod(shape))
+        x = ints(n, fx).reshape(shape)
+        xi = ints(n, fx).reshape(shape) if np.dtype(fx["dtype"]).kind == "c" else None
         try:
             osh, sl = sp.wavelet.get_wavelet_shape(shape, name, axes, level)
         except Exception as e:  # noqa
             osh, sl = None, None
         seed = rng.randint(0, 10 ** 6)
-        c = np.random.RandomState(seed).randint(-9, 10, size=osh) if osh is not None else None
+        rs = np.random.RandomState(seed)
+        c = ci = None
+        if osh is not None:
+            c = np.array(feed_ints(rs.randint(-9, 10, size=osh).ravel(), fc), dtype=np.int64).reshape(osh)
+            ci = rs.randint(-9, 10, size=osh) if np.dtype(fc["dtype"]).kind == "c" else None
+        li = [len(lines)]
         lines.append("C10 fwtn %s sh=%s ax=%s level=%s x=%s" % (f, IL(shape), IL(ax), lv(level), IL(x.ravel())))
-        meta.append(("fwtn", name, shape, axes, level, x, None, None))
+        if xi is not None:   # complex data: the model (a real-linear map applied to both parts) is asked for the imaginary part too
+            li.append(len(lines))
+            lines.append("C10 fwtn %s sh=%s ax=%s level=%s x=%s" % (f, IL(shape), IL(ax), lv(level), IL(xi.ravel())))
+        meta.append(("fwtn", name, shape, axes, level, x, xi, None, fx, li))
         if c is not None:
+            li = [len(lines)]
             lines.append("C10 iwtn %s sh=%s ax=%s level=%s c=%s" % (f, IL(shape), IL(ax), lv(level), IL(c.ravel())))
-            meta.append(("iwtn", name, shape, axes, level, c, sl, seed))
+            if ci is not None:
+                li.append(len(lines))
+                lines.append("C10 iwtn %s sh=%s ax=%s level=%s c=%s" % (f, IL(shape), IL(ax), lv(level), IL(ci.ravel())))
+            meta.append(("iwtn", name, shape, axes, level, c, ci, sl, fc, li))
     replies = ctx.driver_guarded(lines, chunk=20, chunk_timeout=60, line_timeout=30)
     bad = skipped = 0
-    for (kind, name, shape, axes, level, data, sl, seed), r in zip(meta, replies):
-        if r == "err model-timeout":
+    for (kind, name, shape, axes, level, data, imag, sl, feed, li) in meta:
+        rs_ = [replies[i] for i in li]
+        r = rs_[0]
+        if "err model-timeout" in rs_:
             skipped += 1
             continue
-        case = dict(kind="ndlevels", op=kind, wavelet=name, shape=list(shape), axes=None if axes is None else list(axes), level=level)
-        nontrivial_gap = False
+        case = dict(kind="ndlevels", op=kind, wavelet=name, shape=list(shape), axes=None if axes is None else list(axes), level=level,
+                    feed=feed)
+        model = None
+        if all(t.startswith("ok ") for t in rs_):
+            try:
+                parts = []
+                for t in rs_:
+                    if kind == "fwtn":
+                        sh_s, v_s = t[3:].split(" | ")
+                        parts.append(np.array(parse_rats(v_s)).reshape(parse_ints(sh_s)))
+                    else:
+                        parts.append(np.array(parse_rats(t[3:])).reshape(shape))
+                model = parts[0] if len(parts) == 1 else parts[0] + 1j * parts[1]
+            except Exception as e:  # noqa
+                model = None
         for via in ("fn", "linop"):
             try:
+                arr = feed_array(data.ravel(), feed, data.shape, None if imag is None else imag.ravel())
                 if kind == "fwtn":
-                    impl = (sp.fwt(data.astype(float), wave_name=name, axes=axes, level=level) if via == "fn"
-                            else linop.Wavelet(shape, axes=axes, wave_name=name, level=level)(data.astype(float)))
+                    impl = (sp.fwt(arr, wave_name=name, axes=axes, level=level) if via == "fn"
+                            else linop.Wavelet(shape, axes=axes, wave_name=name, level=level)(arr))
                 else:
-                    impl = (sp.iwt(data.astype(float), shape, sl, wave_name=name, axes=axes, level=level) if via == "fn"
-                            else linop.Wavelet(shape, axes=axes, wave_name=name, level=level).H(data.astype(float)))
+                    impl = (sp.iwt(arr, shape, sl, wave_name=name, axes=axes, level=level) if via == "fn"
+                            else linop.Wavelet(shape, axes=axes, wave_name=name, level=level).H(arr))
             except Exception as e:  # noqa
                 impl = "err %s" % type(e).__name__
-            model = None
-            if r.startswith("ok "):
-                try:
-                    if kind == "fwtn":
-                        sh_s, v_s = r[3:].split(" | ")
-                        model = np.array(parse_rats(v_s)).reshape(parse_ints(sh_s))
-                    else:
-                        model = np.array(parse_rats(r[3:])).reshape(shape)
-                except Exception as e:  # noqa
-                    model = None
-            ctx.case(("ndlevels", kind, name, tuple(shape), axes, level, via, data.ravel().tolist()),
-                     sample=dict(op=kind, wavelet=name, shape=list(shape), axes=axes, level=level, via=via, reply=r[:80])
+            ctx.case(("ndlevels", kind, name, tuple(shape), axes, level, via, data.ravel().tolist(), json.dumps(feed, sort_keys=True)),
+                     sample=dict(op=kind, wavelet=name, shape=list(shape), axes=axes, level=level, via=via, feed=feed, reply=r[:80])
                      if ctx.evaluations % 61 == 0 else None)
             ctx.count("ndlevels:%s:%dd:%s" % (kind, len(shape), "odd" if any(s % 2 for s in shape) else "even"))
+            ctx.count("feed:dtype:%s" % feed["dtype"])
+            ctx.count("feed:layout:%s" % feed["layout"])
             ok = model is not None and isinstance(impl, np.ndarray) and impl.shape == model.shape and _cmp(impl, model)
             if not ok:
                 bad += 1
                 ctx.disagree("ndlevels", dict(case, via=via),
-                             impl if isinstance(impl, str) else dict(shape=list(impl.shape), head=np.asarray(impl).ravel()[:6].tolist()),
+                             impl if isinstance(impl, str) else dict(shape=list(impl.shape), dtype=str(impl.dtype), head=np.asarray(impl).ravel()[:6].tolist()),
                              r[:120] if model is None else dict(shape=list(model.shape), head=model.ravel()[:6].tolist()))
     if skipped:
         ctx.notes.append("ndlevels: %d requests not compared (model time-out)" % skipped)
@@ -738,8 +816,11 @@ def correspond(ctx):
     warnings.simplefilter("ignore")  # pywt warns when an explicit level exceeds the max level (in the domain)
     ctx.rule = ("filters: every orthogonal wavelet of pywt; levels: wavelet x unpadded length (odd incl.) x level, pywt.wavedec and "
                 "pywt.waverec on arbitrary integer coefficient lists (trimming rule); 1-D: wavelet x length (incl. L-1, L, L+1, odd) x level x axes "
-                "spelling with integer data, exact rational model vs float impl at 1e-10, both entry points; shapes: wavelet x "
-                "shape (1-3 D, odd/even/shorter than the filter) x axes subset (incl. negative/mixed/reordered) x level; "
+                "spelling with integer data, exact rational model vs float impl at 1e-10, both entry points; the integer data reaches the "
+                "implementation (1-D, separable, ndlevels streams) in a drawn storage: float64 / (u)int8..64 / >f8 / >i4 / long double "
+                "(complex128 / clongdouble with an independent imaginary part in ndlevels) x C / Fortran / strided / reversed / transposed / "
+                "window / read-only / unaligned / .real-part layout; shapes: wavelet x "
+                "shape (1-3 D, odd/even/shorter than the filter) x axes subset (incl. negative/mixed/reordered) x level x dtype of the probe array; "
                 "separable: N-D level-1 by per-axis composition of the model; ndlevels: wavelet (short filters favoured) x 1-3 D shape "
                 "(odd sizes) x axes subset/spelling x level None/1/2/3 with integer data through the executed multi-level N-d model, forward "
                 "on arrays and inverse on arbitrary coefficient arrays, both entry points; maxlevel: lengths 0..139 + powers of two x even "
@@ -770,7 +851,11 @@ def correspond(ctx):
         "unnormalised tuple and the model with a % ndim",
         "level=None: pywt.dwt_max_level is PyWavelets' C code (contract); the model's maxLevel is proved to be the largest J with (L-1)*2^J <= n "
         "(maxLevel_spec) and compared with pywt.dwt_max_level on every run (maxlevel stream)",
-        "complex inputs: PyWavelets transforms real and imaginary parts separately (validated by the search oracle on complex data)",
+        "complex inputs: PyWavelets transforms real and imaginary parts separately (validated value by value by the ndlevels stream on "
+        "complex128 / clongdouble data with independent integer real and imaginary parts, and by the search oracle on complex data)",
+        "storage of the input: the theorems are about the numbers an array holds; that sigpy + PyWavelets read exactly those numbers from any "
+        "storage dtype / memory layout (PyWavelets converts everything except float32 / complex64 / float64 / complex128 to float64, float16 "
+        "to float32) is validated by the streams' storage feeds (exact, 1e-10) and the search oracle (single precision at %g relative)" % RTOL_SINGLE,
     ]
     ctx.trusted += ["PyWavelets %s (C implementation of dwt/idwt and its Python multilevel/packing layer): contract validated by "
                     "correspondence on every run, not verified" % __import__("pywt").__version__,
@@ -789,6 +874,49 @@ def correspond(ctx):
 
 
 # ---- the property's own oracle on the real code ----------------------------------------------------
+# The statement quantifies over "real and complex inputs": every numpy array holding real or complex numbers is an
+# input - whatever its storage dtype (float16/32/64, complex64/128, signed/unsigned integers of every width, long
+# double, non-native byte order), memory layout (C / Fortran order, strided / reversed / transposed views, windows of
+# larger buffers, the .real/.imag part of a complex array, read-only, unaligned, broadcast views) and magnitude.  The
+# identities are always judged against the EXACT values the array holds (converted to float64 / complex128, which is
+# lossless for every dtype generated here), never against an array of the input's own dtype.
+DT_DOUBLE = ["float64", "complex128"]
+DT_SINGLE = ["float32", "complex64", "float16"]          # PyWavelets transforms these in single precision
+DT_INT = ["int8", "int16", "int32", "int64", "uint8", "uint16", "uint32", "uint64"]
+DT_SWAPPED_REAL = [">f8", ">f4", ">i2", ">i4", ">u2"]     # non-native byte order (raw files); converted to float64 by pywt
+DT_LONG = ["longdouble", "clongdouble"]                  # converted to float64 / complex128 by pywt
+DT_SWAPPED_COMPLEX = [">c16", ">c8"]
+LAYOUTS = ["C", "F", "strided", "neg", "T", "window", "ro", "unaligned", "bcast", "part"]
+RTOL_SINGLE = 5e-4   # single-precision arrays are transformed in single precision (observed <= 4e-7 relative)
+KEY_SWAPPED_COMPLEX = "C10:byteswapped-complex-input"
+
+
+def case_dtype(c, which="dtype"):
+    d = c.get(which)
+    if d is None and which == "cdtype":
+        d = c.get("dtype")
+    return d if d is not None else ("complex128" if c.get("cplx") else "float64")
+
+
+def dclass(dtype):
+    d = np.dtype(dtype)
+    if not d.isnative and d.kind == "c":
+        return "bswapc"
+    if not d.isnative:
+        return "bswap"
+    if d.kind in "iu":
+        return "int"
+    if d.name in DT_SINGLE:
+        return "single"
+    if d.name in ("float64", "complex128"):
+        return "double"
+    return "long"
+
+
+def rtol_of(*dtypes):
+    return RTOL_SINGLE if any(dclass(d) == "single" for d in dtypes) else RTOL_PROP
+
+
 def make_input(shape, cplx, seed):
     r = np.random.RandomState(seed)
     x = r.standard_normal(shape)
@@ -797,86 +925,299 @@ def make_input(shape, cplx, seed):
     return x
 
 
+def make_typed(shape, dtype, seed, scale=0):
+    """values of the requested storage dtype.  Floating kinds: standard normal (x 10^scale); integer kinds: uniform
+    in +-(2^(4+9*scale) - 1) clipped to the dtype's range (non-negative for unsigned), always exactly representable in
+    float64.  For float64 / complex128 and scale 0 this is `make_input` (older replays keep their data)."""
+    dt = np.dtype(dtype)
+    shape = tuple(int(s) for s in shape)
+    if dt.kind in "iu":
+        info = np.iinfo(dt)
+        hi = min(int(info.max), 2 ** (4 + 9 * min(abs(int(scale)), 3)) - 1)
+        lo = max(int(info.min), -hi)
+        a = np.random.RandomState(seed).randint(lo, hi + 1, size=shape, dtype=np.int64)
+        return a.astype(dt)
+    a = make_input(shape, dt.kind == "c", seed)
+    if scale:
+        a = a * 10.0 ** int(scale)
+    return a.astype(dt)
+
+
+def exact(a):
+    """the values an array holds, as a fresh C-contiguous float64 / complex128 array"""
+    a = np.asarray(a)
+    return np.array(a, dtype=np.complex128 if a.dtype.kind == "c" else np.float64, order="C", copy=True)
+
+
+def lay(a, layout, seed):
+    """an array with the values of `a` (except 'bcast': the first slice repeated) in the requested memory layout; the
+    memory around / between the elements of a view holds non-zero garbage"""
+    r = np.random.RandomState((seed + 7919) % (2 ** 31))
+    nd = a.ndim
+
+    def garbage(shape, dtype=None):
+        dtype = a.dtype if dtype is None else np.dtype(dtype)
+        if dtype.kind in "iu":
+            return r.randint(1, 8, size=shape).astype(dtype)
+        g = 3.0 + r.standard_normal(shape)
+        if dtype.kind == "c":
+            g = g - 2j * g
+        return g.astype(dtype)
+
+    def filled(view):
+        view[...] = a
+        return view
+
+    if layout == "F":
+        return np.array(a, order="F", copy=True)
+    if layout == "strided":
+        st = [int(r.randint(2, 4)) for _ in range(nd)]
+        buf = garbage(tuple(s * t for s, t in zip(a.shape, st)))
+        return filled(buf[tuple(slice(t - 1, None, t) for t in st)])
+    if layout == "neg":
+        buf = garbage(a.shape)
+        return filled(buf[tuple(slice(None, None, -1) for _ in range(nd))])
+    if layout == "T":
+        perm = list(r.permutation(nd)) if nd > 2 else list(range(nd))[::-1]
+        buf = garbage(tuple(a.shape[p] for p in perm))
+        return filled(buf.transpose(np.argsort(perm)))
+    if layout == "window":
+        lo = [int(r.randint(0, 3)) for _ in range(nd)]
+        buf = garbage(tuple(s + l + 2 for s, l in zip(a.shape, lo)))
+        return filled(buf[tuple(slice(l, l + s) for s, l in zip(a.shape, lo))])
+    if layout == "ro":
+        b = np.array(a, order="C", copy=True)
+        b.setflags(write=False)
+        return b
+    if layout == "unaligned":
+        raw = np.full(a.size * a.dtype.itemsize + 1, 0x55, dtype=np.uint8)
+        return filled(raw[1:].view(a.dtype).reshape(a.shape))
+    if layout == "bcast":   # zero stride along the first axis (read-only): e.g. a profile repeated over a batch axis
+        return np.broadcast_to(np.array(a[:1], copy=True), a.shape)
+    if layout == "part" and a.dtype.kind == "f" and a.dtype.isnative and a.dtype.itemsize in (4, 8):
+        z = garbage(a.shape, "complex64" if a.dtype.itemsize == 4 else "complex128")
+        return filled(z.real if seed % 2 else z.imag)   # real / imaginary part of a complex array: a strided real view
+    return np.array(a, order="C", copy=True)
+
+
+def spell(c, shape, axes, level):
+    """`spell`=1: the same request written with numpy integers (shape entries, axes entries, level)"""
+    if not c.get("spell"):
+        return list(shape), axes, level
+    return (tuple(np.int64(s) for s in shape), None if axes is None else tuple(np.int64(a) for a in axes),
+            None if level is None else np.int64(level))
+
+
 def l2(a):
     """l2 norm without BLAS (thread start-up dominates on tiny arrays)"""
     a = np.asarray(a)
+    if not (a.dtype.isnative and a.dtype.name in ("float64", "complex128")):
+        a = exact(a)
     return float(np.sqrt((a.real ** 2 + a.imag ** 2).sum()))
 
 
 def ip(a, b):
     """<a, b> = sum conj(a) b"""
-    return complex((np.conj(a) * b).sum())
+    return complex((np.conj(exact(a)) * exact(b)).sum())
 
 
 def parity(shape):
     return "odd" if any(s % 2 for s in shape) else "even"
 
 
+WORST = {}   # largest observed residual / (norm scale) per precision class: reported in the evidence notes
+
+
+class _Run:
+    """one configuration, evaluated in stages so that several live operators can be interleaved (histories)"""
+
+    def __init__(self, c):
+        self.c = c
+        self.name, self.shape, self.level = c["wavelet"], [int(s) for s in c["shape"]], c["level"]
+        self.axes = None if c["axes"] is None else tuple(int(a) for a in c["axes"])
+        self.dt, self.cdt = case_dtype(c), case_dtype(c, "cdtype")
+        self.layout, self.clayout = c.get("layout", "C"), c.get("clayout", c.get("layout", "C"))
+        self.error = None
+        self.xe = exact(self.mk_x())
+
+    # every call of the implementation gets a freshly built array (same values, same layout): the verdict on one call never
+    # depends on what another call did to its argument (that inputs are left alone is property C02, not this one)
+    def mk_x(self):
+        c = self.c
+        if getattr(self, "_xb", None) is None:
+            self._xb = make_typed(self.shape, self.dt, c["seed"], c.get("scale", 0))
+            self._xb.setflags(write=False)
+        return lay(self._xb, self.layout, c["seed"])
+
+    def mk_c(self):
+        c = self.c
+        if getattr(self, "_cb", None) is None:
+            self._cb = make_typed(self.cshape, self.cdt, c["seed"] + 1, c.get("cscale", c.get("scale", 0)))
+            self._cb.setflags(write=False)
+        return lay(self._cb, self.clayout, c["seed"] + 1)
+
+    def params(self):
+        return (self.name, tuple(self.shape), self.axes, self.level, bool(self.c.get("spell")))
+
+    def guarded(self, stage):
+        if self.error is not None:
+            return
+        try:
+            with warnings.catch_warnings():
+                warnings.simplefilter("ignore")
+                stage()
+        except Exception as e:  # a request inside the quantified domain must work
+            self.error = e
+
+    def construct(self, shared=None):
+        def stage():
+            import sigpy as sp
+            from sigpy import linop
+            shape, axes, level = spell(self.c, self.shape, self.axes, self.level)
+            ops = None if shared is None else shared.get(self.params())
+            if ops is None:
+                W = linop.Wavelet(shape, axes=axes, wave_name=self.name, level=level)
+                ops = (W, W.H, W.H.H)
+                if shared is not None:
+                    shared[self.params()] = ops
+            self.W, self.WH, self.WHH = ops
+            self.osh, self.sl = sp.wavelet.get_wavelet_shape(shape, wave_name=self.name, axes=axes, level=level)
+            self.args = (shape, axes, level)
+        self.guarded(stage)
+
+    def forward(self):
+        def stage():
+            import sigpy as sp
+            shape, axes, level = self.args
+            self.y = sp.fwt(self.mk_x(), wave_name=self.name, axes=axes, level=level)
+            self.yl = self.W(self.mk_x())
+            self.yhh = self.WHH(self.mk_x())
+            self.cshape = tuple(self.y.shape)
+            self.cce = exact(self.mk_c())
+        self.guarded(stage)
+
+    def inverse(self):
+        def stage():
+            import sigpy as sp
+            shape, axes, level = self.args
+            WH = self.WH
+            self.xr = sp.iwt(self.y.copy(), shape, self.sl, wave_name=self.name, axes=axes, level=level)
+            self.xc = sp.iwt(self.mk_c(), shape, self.sl, wave_name=self.name, axes=axes, level=level)
+            self.xrl = WH(self.yl.copy()) if tuple(self.yl.shape) == tuple(WH.ishape) else None
+            self.xcl = WH(self.mk_c()) if self.cshape == tuple(WH.ishape) else None
+        self.guarded(stage)
+
+    def verify(self, ctx, origin, case=None, prefix=""):
+        """the four claims of the statement, on the values the input array holds"""
+        c = self.c if case is None else case
+        shape = self.shape
+        cls = dclass(self.dt)
+        tag = parity(shape) + ("" if cls == "double" else ":" + cls)
+        ok = True
+
+        def fail(key, what, obs, exp):
+            nonlocal ok
+            ok = False
+            k = KEY_SWAPPED_COMPLEX if "bswapc" in (cls, dclass(self.cdt)) else "C10:%s%s:%s" % (prefix, key, tag)
+            if k == KEY_SWAPPED_COMPLEX and sum(1 for f in ctx.failures if f["key"] == k) >= 8:
+                return   # one class, one key: a few instances are enough evidence
+            ctx.fail(k, what, c, observed=obs, expected=exp, origin=origin)
+
+        if self.error is not None:
+            e = self.error
+            fail("raises", "fwt/iwt/Wavelet raised %s on a request inside the property's domain" % type(e).__name__,
+                 (repr(e) + (" caused by " + repr(e.__cause__) if e.__cause__ is not None else ""))[:400], "result")
+            return False
+        W, WH, x, y, yl, yhh, cc = self.W, self.WH, self.xe, self.y, self.yl, self.yhh, self.cce
+        nx, nc = l2(x), l2(cc)
+        tol = rtol_of(self.dt)
+        tol_a = rtol_of(self.dt, self.cdt)
+        # advertised shape
+        if not (tuple(W.oshape) == tuple(y.shape) == tuple(self.osh) == tuple(yl.shape)) or [int(s) for s in W.ishape] != shape:
+            fail("shape:Wavelet.oshape", "coefficient array does not have the advertised shape",
+                 dict(oshape=list(W.oshape), get_wavelet_shape=list(self.osh), fwt=list(y.shape), linop=list(yl.shape)), "all equal")
+            return False
+        if self.xrl is None or tuple(WH.oshape) != tuple(shape):
+            fail("shape:Wavelet.H", "Wavelet.H does not accept the coefficient shape / return the input shape",
+                 dict(H_ishape=list(WH.ishape), H_oshape=list(WH.oshape)), dict(ishape=list(y.shape), oshape=shape))
+            return False
+        if nx == 0 or nc == 0:    # only from the bounded integer generators on tiny shapes; nothing to compare relative to
+            return True
+
+        def seen(v, k=None):
+            k = cls if k is None else k
+            if np.isfinite(v):
+                WORST[k] = max(WORST.get(k, 0.0), float(v))
+        # round trip
+        for ent, got in (("iwt", self.xr), ("Wavelet.H", self.xrl)):
+            err = l2(exact(got) - x) / nx if got.shape == x.shape else None
+            if err is None or not err <= tol:
+                fail("roundtrip:" + ent, "inverse(forward(x)) != x", dict(shape=list(got.shape), rel_err=err, result_dtype=str(got.dtype)),
+                     "<= %g relative" % tol)
+            else:
+                seen(err)
+        # isometry
+        for ent, got in (("fwt", y), ("Wavelet", yl), ("Wavelet.H.H", yhh)):
+            if not abs(l2(got) - nx) <= tol * nx:
+                fail("isometry:" + ent, "forward transform does not preserve the l2 norm",
+                     dict(norm_y=l2(got), norm_x=nx, result_dtype=str(got.dtype)), "equal to %g relative" % tol)
+            else:
+                seen(abs(l2(got) - nx) / nx)
+        if yhh.shape != y.shape or not l2(exact(yhh) - exact(y)) <= tol * nx:
+            fail("linop:Wavelet.H.H", "Wavelet.H.H differs from fwt", l2(exact(yhh) - exact(y)) if yhh.shape == y.shape else list(yhh.shape), "fwt(x)")
+        if not l2(exact(yl) - exact(y)) <= tol * nx:
+            fail("linop:Wavelet", "Wavelet(x) differs from fwt(x)", l2(exact(yl) - exact(y)), "fwt(x)")
+        # adjoint: <fwt x, c> = <x, iwt c> for arbitrary coefficient arrays
+        for ent, got in (("iwt", self.xc), ("Wavelet.H", self.xcl)):
+            if got.shape != x.shape:
+                fail("adjoint:" + ent, "inverse of an arbitrary coefficient array has the wrong shape", list(got.shape), shape)
+                continue
+            lhs, rhs = ip(cc, y), ip(got, x)
+            if not abs(lhs - rhs) <= tol_a * nx * nc:
+                fail("adjoint:" + ent, "<fwt x, c> != <x, iwt c>",
+                     dict(lhs=complex(lhs), rhs=complex(rhs), result_dtype=str(got.dtype), coeff_dtype=self.cdt), "equal to %g relative" % tol_a)
+            else:
+                seen(abs(lhs - rhs) / (nx * nc), "single" if tol_a == RTOL_SINGLE else None)
+        return ok
+
+
 def check_oracle(ctx, c, origin):
-    """c = dict(wavelet, shape, axes, level, cplx, seed).  Returns True iff the property holds on this input."""
-    import sigpy as sp
-    from sigpy import linop
-    name, shape, level, cplx = c["wavelet"], list(c["shape"]), c["level"], c["cplx"]
-    axes = None if c["axes"] is None else tuple(c["axes"])
-    x = make_input(shape, cplx, c["seed"])
-    tag = parity(shape)
-    ok = True
-
-    def fail(key, what, obs, exp):
-        nonlocal ok
-        ok = False
-        ctx.fail("C10:%s:%s" % (key, tag), what, c, observed=obs, expected=exp, origin=origin)
-
+    """c = dict(wavelet, shape, axes, level, seed, + optional cplx | dtype, cdtype, layout, clayout, scale, cscale, spell), or a
+    history dict(kind='history', entries=[...], order=seed).  Returns True iff the property holds on this input."""
+    if c.get("kind") == "history":
+        return check_history(ctx, c, origin)
     try:
-        with warnings.catch_warnings():
-            warnings.simplefilter("ignore")
-            W = linop.Wavelet(shape, axes=axes, wave_name=name, level=level)
-            osh, sl = sp.wavelet.get_wavelet_shape(shape, wave_name=name, axes=axes, level=level)
-            y = sp.fwt(x.copy(), wave_name=name, axes=axes, level=level)
-            yl = W(x.copy())
-            cshape = y.shape
-            cc = make_input(cshape, cplx, c["seed"] + 1)
-            xr = sp.iwt(y.copy(), shape, sl, wave_name=name, axes=axes, level=level)
-            xc = sp.iwt(cc.copy(), shape, sl, wave_name=name, axes=axes, level=level)
-            WH = W.H
-            xrl = WH(yl.copy()) if tuple(yl.shape) == tuple(WH.ishape) else None
-            xcl = WH(cc.copy()) if tuple(cc.shape) == tuple(WH.ishape) else None
-            yhh = WH.H(x.copy())
-    except Exception as e:  # a request inside the quantified domain must work
-        fail("raises", "fwt/iwt/Wavelet raised %s on a request inside the property's domain" % type(e).__name__, repr(e)[:300], "result")
-        return False
-    nx, nc = l2(x), l2(cc)
-    # advertised shape
-    if not (tuple(W.oshape) == tuple(y.shape) == tuple(osh) == tuple(yl.shape)) or list(W.ishape) != shape:
-        fail("shape:Wavelet.oshape", "coefficient array does not have the advertised shape",
-             dict(oshape=list(W.oshape), get_wavelet_shape=list(osh), fwt=list(y.shape), linop=list(yl.shape)), "all equal")
-        return False
-    if xrl is None or tuple(WH.oshape) != tuple(shape):
-        fail("shape:Wavelet.H", "Wavelet.H does not accept the coefficient shape / return the input shape",
-             dict(H_ishape=list(WH.ishape), H_oshape=list(WH.oshape)), dict(ishape=list(y.shape), oshape=shape))
-        return False
-    # round trip
-    for ent, got in (("iwt", xr), ("Wavelet.H", xrl)):
-        if got.shape != x.shape or not l2(got - x) <= RTOL_PROP * nx:
-            fail("roundtrip:" + ent, "inverse(forward(x)) != x",
-                 dict(shape=list(got.shape), rel_err=l2(got - x) / nx if got.shape == x.shape else None), "<= 1e-8 relative")
-    # isometry
-    for ent, got in (("fwt", y), ("Wavelet", yl), ("Wavelet.H.H", yhh)):
-        if not abs(l2(got) - nx) <= RTOL_PROP * nx:
-            fail("isometry:" + ent, "forward transform does not preserve the l2 norm",
-                 dict(norm_y=l2(got), norm_x=nx), "equal to 1e-8 relative")
-    if yhh.shape != y.shape or not l2(yhh - y) <= RTOL_PROP * max(nx, 1e-300):
-        fail("linop:Wavelet.H.H", "Wavelet.H.H differs from fwt", l2(yhh - y) if yhh.shape == y.shape else list(yhh.shape), "fwt(x)")
-    if not l2(yl - y) <= RTOL_PROP * nx:
-        fail("linop:Wavelet", "Wavelet(x) differs from fwt(x)", l2(yl - y), "fwt(x)")
-    # adjoint: <fwt x, c> = <x, iwt c> for arbitrary coefficient arrays
-    for ent, got in (("iwt", xc), ("Wavelet.H", xcl)):
-        if got.shape != x.shape:
-            fail("adjoint:" + ent, "inverse of an arbitrary coefficient array has the wrong shape", list(got.shape), shape)
-            continue
-        lhs, rhs = ip(cc, y), ip(got, x)
-        if not abs(lhs - rhs) <= RTOL_PROP * nx * nc:
-            fail("adjoint:" + ent, "<fwt x, c> != <x, iwt c>", dict(lhs=complex(lhs), rhs=complex(rhs)), "equal to 1e-8 relative")
+        run = _Run(c)
+    except Exception as e:  # harness trouble building the input: never a verdict about sigpy
+        raise RuntimeError("C10 oracle could not build the input of %r: %r" % (c, e))
+    run.construct()
+    run.forward()
+    run.inverse()
+    return run.verify(ctx, origin)
+
+
+def check_history(ctx, h, origin):
+    """several requests served by LIVE operators: all operators (and their .H, .H.H) are constructed first - requests with
+    identical parameters share one operator object - then all forward transforms run in one shuffled order and all inverse
+    transforms in another; every request must satisfy the statement exactly as if it had been served alone."""
+    runs = [_Run(e) for e in h["entries"]]
+    r = np.random.RandomState(h.get("order", 0))
+    shared = {}
+    for i in r.permutation(len(runs)):
+        runs[i].construct(shared)
+    for i in r.permutation(len(runs)):
+        runs[i].forward()
+    for i in r.permutation(len(runs)):
+        runs[i].inverse()
+    ok = True
+    for i, run in enumerate(runs):
+        sub = len(ctx.failures)
+        if not run.verify(ctx, origin, case=h, prefix="history:"):
+            ok = False
+            for f in ctx.failures[sub:]:
+                f["observed"] = "entry %d: %s" % (i, f["observed"])
+            # the same request served alone by fresh objects: when it fails too it is reported as a plain (smaller) case
+            check_oracle(ctx, run.c, origin + ":history-entry")
     return ok
 
 
@@ -913,28 +1254,124 @@ def gen_oracle_cases(ctx, rng, names, budget):
                     # keep the case only when the packed coefficient array stays small (thorough keeps them all)
                     if budget < 8 and level is not None and _packed_size(shape, axes, L, level) > 300000:
                         continue
-                    cases.append(dict(wavelet=name, shape=list(shape), axes=None if axes is None else list(axes), level=level,
-                                      cplx=rng.random() < 0.5, seed=rng.randint(0, 10 ** 6)))
+                    cases.append(representation(rng, dict(wavelet=name, shape=list(shape), axes=None if axes is None else list(axes),
+                                                          level=level, seed=rng.randint(0, 10 ** 6))))
     return cases
+
+
+# storage dtype classes with their share of the widened cases
+DT_WEIGHTS = [(DT_DOUBLE, 20), (DT_SINGLE, 18), (DT_INT, 44), (DT_SWAPPED_REAL, 8), (DT_LONG, 6), (DT_SWAPPED_COMPLEX, 2)]
+
+
+def draw_dtype(rng):
+    tot = sum(w for _, w in DT_WEIGHTS)
+    t = rng.random() * tot
+    for group, w in DT_WEIGHTS:
+        t -= w
+        if t < 0:
+            return rng.choice(group)
+    return "float64"
+
+
+def draw_scale(rng, dtype):
+    """power of ten (floating kinds) / magnitude class (integer kinds) inside the dtype's exactly handled range"""
+    d = np.dtype(dtype)
+    if d.kind in "iu":
+        return rng.choice([0, 0, 1, 2, 3])
+    if rng.random() < 0.7 or d.name == "float16":
+        return 0
+    lim = 12 if d.itemsize <= (8 if d.kind == "c" else 4) else 100
+    return rng.choice([-lim, -lim // 3, -3, 3, lim // 3, lim])
+
+
+def representation(rng, c):
+    """how the numbers are stored: 35% of the cases keep the classic float64 / complex128 C-contiguous array, the others
+    draw storage dtype, memory layout, magnitude, the dtype / layout of the arbitrary coefficient array of the adjoint
+    identity (30% of them from another class: a real signal against complex coefficients, integers against floats ...)
+    and the spelling of shape / axes / level (numpy integers)"""
+    if rng.random() < 0.35:
+        c["cplx"] = rng.random() < 0.5
+        return c
+    c["dtype"] = draw_dtype(rng)
+    c["layout"] = "C" if rng.random() < 0.4 else rng.choice(LAYOUTS)
+    c["scale"] = draw_scale(rng, c["dtype"])
+    if rng.random() < 0.3:
+        c["cdtype"] = draw_dtype(rng)
+        c["clayout"] = rng.choice(LAYOUTS)
+        c["cscale"] = draw_scale(rng, c["cdtype"])
+    if rng.random() < 0.15:
+        c["spell"] = 1
+    return c
+
+
+# one instance of every storage class / layout on every run (decomposition actually performed: length >= filter length)
+PINNED = [dict(wavelet=w, shape=sh, axes=ax, level=lvl, seed=sd, dtype=dt, layout=lo, scale=sc)
+          for sd, (w, sh, ax, lvl, dt, lo, sc) in enumerate([
+              ("haar", [8], None, 1, "int64", "C", 0), ("db4", [17], None, None, "int32", "strided", 1),
+              ("db2", [6, 5], [0], 2, "uint8", "F", 1), ("coif1", [5, 7], None, 1, "int16", "T", 1),
+              ("sym3", [4, 3, 8], [-2, -1], 2, "uint16", "window", 2), ("db3", [9, 10], [-1, 0], 2, "int8", "neg", 1),
+              ("db2", [13], [-1], 3, "uint32", "unaligned", 3), ("haar", [2, 3, 5], [1, -1], None, "uint64", "ro", 3),
+              ("db4", [17], None, 1, "float32", "part", 0), ("db2", [6, 5], [1], None, "complex64", "strided", 3),
+              ("sym4", [10, 7], [0], 2, "float16", "F", 0), ("db2", [7, 8], [1], None, "float64", "part", -100),
+              ("db3", [12, 11], [1, 0], 3, "complex128", "T", 100), ("haar", [5, 6], None, 2, ">f8", "window", 0),
+              ("db2", [8, 3], None, 2, ">i4", "C", 2), ("db2", [16], None, 2, "longdouble", "neg", 0),
+              ("sym2", [6, 6], None, 1, "clongdouble", "F", 0), ("db2", [9, 2], [0], 2, "float64", "bcast", 0),
+              ("db2", [6, 5], [0], 2, ">c16", "C", 0)], start=4242)]
+
+
+def gen_history_cases(ctx, rng, names, budget):
+    """call histories over live operators: [a request, the same request with other storage (same operator object),
+    the same shape with the axes respelled / reordered or another level (second live operator), a different request]"""
+    import pywt
+    short = [w for w in names if pywt.Wavelet(w).dec_len <= 12] or ["haar"]
+    out = []
+    for _ in range(min(int(30 * budget), 160)):
+        name = rng.choice(short)
+        shape = list(rng.choice(SHAPES_BASE) if rng.random() < 0.5 else rand_shape(rng))
+        nd = len(shape)
+        axes = rng.choice(subsets(nd))
+        level = rng.choice(LEVELS)
+        base = dict(wavelet=name, shape=shape, axes=None if axes is None else list(axes), level=level)
+        entries = [representation(rng, dict(base, seed=rng.randint(0, 10 ** 6))) for _ in range(2)]
+        other = dict(base)
+        if rng.random() < 0.5 and nd > 1:
+            a2 = norm_axes(axes, nd)
+            rng.shuffle(a2)
+            other["axes"] = [a - nd if rng.random() < 0.5 else a for a in a2]
+        else:
+            other["level"] = rng.choice([l for l in LEVELS if l != level])
+        entries.append(representation(rng, dict(other, seed=rng.randint(0, 10 ** 6))))
+        sh2 = list(rng.choice(SHAPES_BASE))
+        ax2 = rng.choice(subsets(len(sh2)))
+        entries.append(representation(rng, dict(wavelet=rng.choice(short), shape=sh2, axes=None if ax2 is None else list(ax2),
+                                                level=rng.choice(LEVELS), seed=rng.randint(0, 10 ** 6))))
+        out.append(dict(kind="history", entries=entries, order=rng.randint(0, 10 ** 6)))
+    return out
 
 
 def _case_from_disagreement(d, rng):
     cc = d["case"]
     out = []
-    if cc.get("kind") in ("shape", "packing", "reified", "separable", "ndlevels"):
+    feed = cc.get("feed") or (cc.get("p") or {}).get("feed")
+    if cc.get("kind") == "shape" and cc.get("dtype"):
+        feed = dict(dtype=cc["dtype"], layout="C")
+
+    def add(**k):
         for cplx in (False, True):
-            out.append(dict(wavelet=cc["wavelet"], shape=cc["shape"], axes=cc.get("axes"), level=cc.get("level", 1), cplx=cplx,
-                            seed=rng.randint(0, 10 ** 6)))
+            out.append(dict(k, cplx=cplx, seed=rng.randint(0, 10 ** 6)))
+        if feed is not None:   # ... and in the storage (dtype, layout) of the disagreeing call, for both roles
+            for sc in (0, 1):
+                out.append(dict(k, dtype=feed["dtype"], layout=feed["layout"], scale=sc, seed=rng.randint(0, 10 ** 6)))
+            out.append(dict(k, cplx=False, cdtype=feed["dtype"], clayout=feed["layout"], cscale=0, seed=rng.randint(0, 10 ** 6)))
+
+    if cc.get("kind") in ("shape", "packing", "reified", "separable", "ndlevels"):
+        add(wavelet=cc["wavelet"], shape=cc["shape"], axes=cc.get("axes"), level=cc.get("level", 1))
     elif cc.get("kind") in ("fwt1", "iwt1"):
         p = cc["p"]
         n = p["n"] if "n" in p else len(p["x"])
-        for cplx in (False, True):
-            out.append(dict(wavelet=cc["wavelet"], shape=[n], axes=None if p["axes"] is None else list(p["axes"]), level=p["level"],
-                            cplx=cplx, seed=rng.randint(0, 10 ** 6)))
+        add(wavelet=cc["wavelet"], shape=[n], axes=None if p["axes"] is None else list(p["axes"]), level=p["level"])
     elif cc.get("kind") == "levels":
-        for cplx in (False, True):
-            out.append(dict(wavelet=cc["wavelet"], shape=[cc["n"]], axes=None, level=cc["level"], cplx=cplx,
-                            seed=rng.randint(0, 10 ** 6)))
+        add(wavelet=cc["wavelet"], shape=[cc["n"]], axes=None, level=cc["level"])
     elif cc.get("kind") == "maxlevel":
         for n in (cc["L"] - 1, 2 * (cc["L"] - 1), 4 * (cc["L"] - 1) + 1, 37):
             if n >= 1 and cc["L"] in (2, 4, 6, 8):
@@ -946,24 +1383,58 @@ def _case_from_disagreement(d, rng):
     return out
 
 
+def _count_case(ctx, c):
+    ctx.count("oracle:%s:%dd" % (c["wavelet"].rstrip("0123456789"), len(c["shape"])))
+    ctx.count("oracle:dtype:%s" % dclass(case_dtype(c)))
+    ctx.count("oracle:layout:%s" % c.get("layout", "C"))
+    if case_dtype(c, "cdtype") != case_dtype(c):
+        ctx.count("oracle:mixed-coefficient-dtype")
+    if c.get("scale") and np.dtype(case_dtype(c)).kind in "fc":
+        ctx.count("oracle:scaled")
+    if c.get("spell"):
+        ctx.count("oracle:numpy-int-arguments")
+
+
 def search(ctx, budget):
     import time
     t0 = time.time()
     rng = ctx.rng
+    ctx.rule += ("; oracle: wavelet x shape x axes subset x level, 35% as float64/complex128 C-contiguous arrays, the others with storage "
+                 "dtype (float16/32/64, complex64/128, (u)int8..64, long double, non-native byte order), memory layout (C, Fortran, strided, "
+                 "reversed, transposed, window of a larger buffer, read-only, unaligned, broadcast, .real/.imag part of a complex array), "
+                 "magnitude (10^-100..10^100 for doubles, 10^-12..10^12 single, integers up to 2^31), an independently stored coefficient "
+                 "array for the adjoint identity, numpy-integer spelling of shape/axes/level; a pinned instance of every class; histories of "
+                 "4 requests over live operators (shared operator object for identical parameters, second operator on the same shape with "
+                 "reordered axes / other level) with shuffled forward and inverse phases")
     seen = 0
     for d in ctx.disagreements[:300]:
         for c in _case_from_disagreement(d, rng):
             ctx.case(("oracle", json.dumps(c, sort_keys=True)))
             check_oracle(ctx, c, "disagreement")
             seen += 1
+        if len(ctx.failures) > 120:   # enough concrete failing inputs from the disagreeing calls
+            break
+    for c in PINNED:
+        ctx.case(("oracle", json.dumps(c, sort_keys=True)))
+        _count_case(ctx, c)
+        check_oracle(ctx, dict(c), "pinned")
     names = wavelets_for(ctx, rng) if budget < 8 else all_wavelets()
     for c in gen_oracle_cases(ctx, rng, names, budget):
         ctx.case(("oracle", json.dumps(c, sort_keys=True)))
-        ctx.count("oracle:%s:%dd" % (c["wavelet"].rstrip("0123456789"), len(c["shape"])))
+        _count_case(ctx, c)
         check_oracle(ctx, c, "search")
         if len(ctx.failures) > 200:
             break
-    common.log("  search: %.1fs" % (time.time() - t0))
+    t1 = time.time()
+    for h in gen_history_cases(ctx, rng, names, budget):
+        ctx.case(("oracle-history", json.dumps(h, sort_keys=True)))
+        ctx.count("oracle:history")
+        check_oracle(ctx, h, "history")
+        if len(ctx.failures) > 200:
+            break
+    ctx.notes.append("oracle: largest observed residual relative to the norms, per storage class: %s (tolerance %g; single precision %g)"
+                     % (", ".join("%s %.1e" % kv for kv in sorted(WORST.items())), RTOL_PROP, RTOL_SINGLE))
+    common.log("  search: %.1fs (histories %.1fs)" % (time.time() - t0, time.time() - t1))
 
 
 def replay(path):
